@@ -11,6 +11,7 @@
    Definitions named [.._old] mirror the code before the repairs handed in as
    build/handoff/C01/fix-*.patch; the unsuffixed ones mirror the repaired code. *)
 From Common Require Import Prelude CxxSem.
+From Coq Require Import Permutation.
 Local Open Scope Z_scope.
 
 (* ------------------------------------------------------------------ helpers *)
@@ -427,3 +428,35 @@ Definition accepts (n : Z) (T : nat) (log : list (nat * part)) : bool :=
   let rtr := range_to_run n (Z.of_nat T) in
   forallb (fun tq => Nat.ltb (fst tq) T && (0 <? plen (snd tq)) && (plen (snd tq) <=? rtr)) log
   && chainb 0 n (sort_parts (map snd log)).
+
+(* ============================================================ Part 6: histories of loops *)
+(* Loops are executed in histories (sequences of calls in one process), and a body may fail: on the backends where that
+   is defined (tbb::parallel_for re-throws in the caller; the Debug backend is a serial loop) the exception reaches the
+   caller and the loop has an exceptional outcome.  The model of a loop is a function of the REQUEST only: no state is
+   carried from one loop to the next (PropertiesSrc.src_dispatch_stateless ties this to parallel_for.inl). *)
+Record hreq := { h_backend : backend; h_ty : ity; h_n : Z; h_throw : option Z }.   (* body throws at this index *)
+Inductive houtcome :=
+| HNormal (calls : list Z)      (* the call returned; the indices the function was invoked with *)
+| HThrew (calls : list Z).      (* the body's exception reached the caller *)
+
+Definition h_count (r : hreq) : Z := requested_count (h_backend r) (h_ty r) (h_n r).
+Definition h_fails (r : hreq) : bool :=
+  match h_throw r with Some b => (0 <=? b) && (b <? h_count r) | None => false end.
+
+(* what a loop may do, whatever happened before it *)
+Definition hadmissible (r : hreq) (o : houtcome) : Prop :=
+  match o with
+  | HNormal c => h_fails r = false /\ Permutation c (zrange 0 (h_count r))
+  | HThrew c => h_fails r = true /\ NoDup c /\ (forall x, In x c -> 0 <= x < h_count r) /\
+                (forall b, h_throw r = Some b -> In b c)
+  end.
+Definition history_admissible (h : list hreq) (os : list houtcome) : Prop := Forall2 hadmissible h os.
+
+(* the Debug backend, executably: for (i = 0; i < n; ++i) fcn(i), the exception leaves the loop at once *)
+Definition run_serial (r : hreq) : houtcome :=
+  let n := h_count r in
+  match h_throw r with
+  | Some b => if (0 <=? b) && (b <? n) then HThrew (zrange 0 (b + 1)) else HNormal (zrange 0 n)
+  | None => HNormal (zrange 0 n)
+  end.
+Definition run_history_serial (h : list hreq) : list houtcome := map run_serial h.
